@@ -10,13 +10,19 @@ import (
 
 // c14Body draws the content of an imported file: 1..3 statements chosen from
 // a menu, with symbolic names and a symbolic value.
+// c14GlobThenExplicit: the drawn file declares ***.style.opacity and later an
+// explicit style.opacity.
+var c14GlobThenExplicit bool
+
 func c14Body() string {
+	c14GlobThenExplicit = false
+	sawGlob := false
 	k := nd.Choose("stmts", 1, nd.Param("S", 2))
 	v := nd.From("val", 1, "xyX1")
 	var sb strings.Builder
 	for i := 0; i < k; i++ {
 		n := nd.From("nm"+strconv.Itoa(i), 1, "abA")
-		switch nd.Choose("kind"+strconv.Itoa(i), 0, 5) {
+		switch nd.Choose("kind"+strconv.Itoa(i), 0, nd.Param("KINDS", 8)) {
 		case 0:
 			sb.WriteString(n + "\n")
 		case 1:
@@ -27,8 +33,18 @@ func c14Body() string {
 			sb.WriteString(n + ".shape: circle\n")
 		case 4:
 			sb.WriteString(n + ": {k: " + v + "; style.opacity: 0.4}\n")
+			if sawGlob {
+				c14GlobThenExplicit = true
+			}
 		case 5:
 			sb.WriteString(n + ".k -> " + n + ".j\n")
+		case 6: // board-wide globs of the imported file reach the importing file
+			sb.WriteString("***.style.opacity: 0." + v + "\n")
+			sawGlob = true
+		case 7:
+			sb.WriteString("(*** -> ***)[*].style.stroke-width: " + v + "\n")
+		case 8: // a spread substitution that only the importing file can resolve
+			sb.WriteString("...${m}\n")
 		}
 	}
 	return sb.String()
@@ -38,12 +54,17 @@ func c14Body() string {
 // of a file, yields the same diagram as writing the file's content there.
 func VerifC14Inline() {
 	body := c14Body()
+	if c14GlobThenExplicit && nd.Known("C14-imported-tripleglob-overrides-later-explicit") {
+		// recorded finding: a *** glob of an imported file is applied again in the importing
+		// file and overrides explicit values the imported file declares after the glob
+		return
+	}
 	files := map[string]string{"x.d2": body, "d/y.d2": body}
 	indent := strings.ReplaceAll(body, "\n", "\n ")
 	var with, without string
 	switch nd.Choose("case", 0, 4) {
-	case 0: // spread import at the top of a file
-		with, without = "...@x\nz\n", body+"z\n"
+	case 0: // spread import at the top of a file, followed by the importer's own elements
+		with, without = "vars: {m: {p; q: "+"M"+"}}\n...@x\nz -> w\n", "vars: {m: {p; q: "+"M"+"}}\n"+body+"z -> w\n"
 	case 1: // value import into an empty map
 		with, without = "m: @x\nz\n", "m: {\n "+indent+"\n}\nz\n"
 	case 2: // spread import inside a map
@@ -61,15 +82,21 @@ func VerifC14Inline() {
 // VerifC14Cycle: an import chain that leads back to a file already being
 // imported is reported as an error instead of recursing.
 func VerifC14Cycle() {
-	names := []string{"index", "x", "d/y"}
-	tgts := []string{"", "x", "d/y", "./x", "y", "../x", "../index", "y.d2", "d/../x", "index", "q"}
-	if nd.Param("T", 0) > 0 {
-		tgts = tgts[:nd.Param("T", 0)]
+	names := []string{"index", "x", "d/y", "d/z"}
+	menus := [][]string{
+		{"", "x", "d/y", "./x", "d/z"},
+		{"", "d/y", "index", "x.d2", "d/../x", "d/z"},
+		{"", "z", "../x", "y", "../index", "./z.d2"},
+		{"", "y", "./y", "../x", "z", "q"},
 	}
 	files := map[string]string{}
 	imp := make([]string, len(names))
 	for i, n := range names {
-		t := tgts[nd.Choose("imp"+strconv.Itoa(i), 0, len(tgts)-1)]
+		m := menus[i]
+		if t := nd.Param("T", 0); t > 0 && t < len(m) {
+			m = m[:t]
+		}
+		t := m[nd.Choose("imp"+strconv.Itoa(i), 0, len(m)-1)]
 		imp[i] = t
 		body := "o" + strconv.Itoa(i) + "\n"
 		if t != "" {
